@@ -31,7 +31,7 @@ def worker_init(tier):
 def BOUNDS(tier):
     q = tier == "quick"
     return dict(inputs="knotted members of M(N<=%d) and D(K<=%d); unknotted members of M(N<=5) once per configuration" % ((8, 3) if q else (10, 4)),
-                configurations=21, fault_sequences="all sequences of length <= %d over 6 behaviours + None on one object" % (2 if q else 3))
+                configurations=30, fault_sequences="all sequences of length <= %d over 6 behaviours + None on one object" % (2 if q else 3))
 
 
 def _knotted(gen, want=True):
@@ -62,13 +62,17 @@ def configurations():
     for beh in B:
         yield ("default", beh)
     yield ("default", "none")
+    # a solver that stops without an optimum and leaves every variable unassigned (value None, objective None) - what HiGHS_CMD does when it returns early
+    for kind in ("arg", "highs", "default"):
+        for beh in ("not_solved", "infeasible", "undefined"):
+            yield (kind, beh + "-unassigned")
 
 
 def execute(case, conf):
     """One execution; returns (result-or-exc, solver_calls)."""
     kind, beh = conf
     b = build(case)
-    solver = seams.FaultSolver([beh]) if beh in seams.BEHAVIOURS else None
+    solver = seams.FaultSolver([beh]) if beh in seams.BEHAVIOURS else (seams.FaultSolver([beh.split("-")[0]], garbage=False) if beh.endswith("-unassigned") else None)
     if kind == "arg":
         r = observe(b.convert_to_dot_bracket, solver)
     elif kind == "highs":
@@ -133,7 +137,7 @@ def run_case(case):
     out.extend(pre)
     for conf in configurations():
         kind, beh = conf
-        eff = beh if beh in seams.BEHAVIOURS else ("raise" if beh == "absent-binary" else "none")
+        eff = beh if beh in seams.BEHAVIOURS else ("raise" if beh == "absent-binary" else (beh.split("-")[0] if beh.endswith("-unassigned") else "none"))
         if not knotted:
             eff_j = "ok" if eff in seams.BEHAVIOURS else eff  # solver is not needed: any behaviour must give the round-bracket answer
         b, r, calls = execute(case, conf)
